@@ -1,11 +1,12 @@
 (** extraction of the C18 model: specifications, checkers and as-is models *)
 Require Import FastZ.
-From Dashu Require Import Base.Prelude Float.RoundSpec Ratio.SimplestSpec Ratio.SimplestModel.
+From Dashu Require Import Base.Prelude Float.RoundSpec Ratio.SimplestSpec Ratio.SimplestModel Ratio.SimplestFindings.
 Extraction "model.ml"
   freduce flt feq simpler simplest_in_spec simplest_closed
   next_up_check next_down_check nearest_check
   float_interval_spec simplest_from_float_spec round_to_prec scaled
-  ieee_interval_spec simplest_from_ieee_spec ieee_value
+  ieee_interval_spec simplest_from_ieee_spec ieee_value ieee_round
+  known_ieee known_unlimited known_oddbase known_halfeven known_powbase
   is_simpler_than_asis is_simpler_than_pinned simplest_in_asis simplest_in_pinned_shortcut
   nearest_asis next_up_asis next_down_asis next_up_pinned next_down_pinned
   simplest_from_ieee_asis simplest_from_float_asis error_bounds_asis fnormalize.
